@@ -82,7 +82,7 @@ def check(pid, tier, seed):
         kf = None
         if P.get("kani"):
             from . import kani
-            kf = pool.submit(kani.run_group, pid, P["kani"], tier)
+            kf = pool.submit(kani.run_group, pid, P["kani"], tier, None, [o for (pp, o) in load_known() if pp == pid])
         for f in cf.as_completed(futs):
             results[futs[f]] = f.result()[0]
         if kf is not None:
@@ -143,6 +143,10 @@ def check(pid, tier, seed):
         else:
             violations.append(f)
 
+    # obligations listed as known findings are expected to fail; they are
+    # reported separately and not counted among the obligations to discharge
+    kf_ids = set(f["obligation"] for f, _ in known_hits)
+    obligations = [o for o in obligations if o["id"] not in kf_ids]
     # ------------------------------------------------------------ evidence
     n_obl = len(obligations)
     n_dis = len([o for o in obligations if o["discharged"]])
